@@ -322,9 +322,13 @@ func solveBatch(obs []*Obligation, dir string, timeoutMS int) {
 		return
 	}
 	defer os.Remove(path)
-	ctx, cancel := context.WithTimeout(context.Background(), time.Duration(len(obs)*timeoutMS/1000+30)*time.Second)
+	hard := len(obs)*timeoutMS/1000 + 20
+	if hard > 180 {
+		hard = 180
+	}
+	ctx, cancel := context.WithTimeout(context.Background(), time.Duration(hard)*time.Second)
 	defer cancel()
-	cmd := exec.CommandContext(ctx, "z3-new", path)
+	cmd := exec.CommandContext(ctx, "z3-new", fmt.Sprintf("-t:%d", timeoutMS), path)
 	var buf bytes.Buffer
 	cmd.Stdout = &buf
 	cmd.Stderr = &buf
